@@ -149,6 +149,83 @@ theorem exponent_forms_example :
       | _ => false) = true := by
   decide +kernel
 
+/-! ## from STRINGS to operations (string level: literals, scanner, segmentation)
+
+  Not proved: that the spec's BNF parser `Spec.parse` returns the same command list on these texts
+  (`parse_model_eq_spec`); its number reader is proved (`number_model_eq_spec`), the group/command level of
+  the recursive-descent parser is only tested (the harness checks Spec.parse = the generator's command list
+  on every generated string).  Arc commands (flags are single digits) are excluded from `SCmd.ok`. -/
+
+/-- one number literal of the SVG grammar, followed by anything that cannot continue it: the code's scanner
+    cuts exactly the literal, the spec's reader reads exactly the literal, and strconv's value (model) is the
+    spec's value — for every literal whose value fits float32 -/
+theorem number_model_eq_spec (l : Lit) (hw : l.WF) (rest : List Char) (hs : l.stops rest)
+    (hsm : l.expSmall) (hov : f32Overflow l.value = false) :
+    (match l.chars ++ rest with
+      | [] => False
+      | c :: cs => consumeNumber false c cs = (l.chars, rest)) ∧
+    Spec.readNumber true (l.chars ++ rest) = some (l.value, rest) ∧
+    parseFloat l.chars = some l.value :=
+  ⟨consumeNumber_lit l hw rest hs, readNumber_lit l hw rest hs, parseFloat_lit l hw hsm hov⟩
+
+/-- the literal `-2.5e+1` followed by `.5` (compact form: the second dot starts a new number) -/
+def exLit : Lit := { neg := true, ip := ['2'], dot := true, fp := ['5'], ex := some ('e', some '+', ['1']) }
+
+example : exLit.WF ∧ exLit.stops ".5".toList ∧ exLit.expSmall ∧ exLit.chars = "-2.5e+1".toList :=
+  ⟨⟨by simp [allDigits, exLit], by simp [allDigits, exLit], by simp [exLit], by simp [exLit],
+      by simp [allDigits, exLit]⟩,
+   by simp [Lit.stops, exLit], by simp [Lit.expSmall, exLit, natOf], by decide⟩
+
+/-- scanner_grammar: any sequence of well-formed literals with any bytes the scanner skips between them
+    (each literal followed by something that ends it) is read by `parsePoints` as exactly the literals' values -/
+theorem scanner_reads_literals (items : List Item) (hc : chainOk items) (hv : valuesOk items) :
+    parsePoints false (render items) = .ok (items.map fun it => it.1.value) :=
+  parsePoints_items items hc hv
+
+/-- the compact text `1-2.5.5 ` is such a sequence: three literals, no separator between them -/
+example : render exItems = "1-2.5.5 ".toList ∧ chainOk exItems := ⟨by decide, exItems_chain⟩
+
+/-- segmentation: `parsePath` cuts the text exactly at the command letters (e / E are not commands) -/
+theorem parse_segmentation (cs : List SCmd)
+    (h : ∀ c ∈ cs, isCmd c.letter = true ∧ noCmd c.lead ∧ ∀ it ∈ c.items, it.1.WF ∧ noCmd it.2) :
+    splitSegs (renderCmds cs) = ([], cs.map fun c => (c.letter, c.args)) :=
+  splitSegs_render cs h
+
+/-- from STRINGS to operations: the text of well-formed non-arc commands whose letters and literal values are
+    the commands `cmds` (as the code sees them) is drawn by `parsePath` with exactly the spec's operations -/
+theorem path_string_model_eq_spec (cs : List SCmd) (cmds : List Cmd) (h : ∀ c ∈ cs, c.ok)
+    (hraw : cmds.map toRaw = cs.map fun c => (c.letter, c.values)) (hg : grammatical cmds = true) :
+    ∃ m, parsePath (renderCmds cs) = .ok (m, (Spec.run cmds).2) ∧
+      m.cur = (Spec.run cmds).1.cur ∧ m.start = (Spec.run cmds).1.start := by
+  rw [parsePath_render cs h, ← hraw]
+  exact path_full cmds hg
+
+/-! ## arcs: radii too small for the chord -/
+
+/-- `findEllipseCenter` (x1', y1' = half chord in the ellipse's frame, `sq` = the square root it takes): when
+    the requested ellipse does not reach the end point the radii the code goes on with — for the centre AND,
+    written back to the argument slot, for the cubics of `addArc` — are both scaled by the same factor
+    k = √λ of SVG F.6.6 (k² = x1'²/rx² + y1'²/ry²), and on the scaled ellipse the chord fits exactly (λ' = 1) -/
+theorem arc_radii_scaled (ra rb x1p y1p sq : Rat) (hra : ra ≠ 0) (hrb : rb ≠ 0)
+    (hsq : sq * sq = x1p * (rb / ra) * (x1p * (rb / ra)) + y1p * y1p)
+    (hlt : rb * rb < x1p * (rb / ra) * (x1p * (rb / ra)) + y1p * y1p) :
+    let k := sq / rb
+    scaleRadii ra rb x1p y1p sq = (k * ra, k * rb) ∧
+    k * k = x1p * x1p / (ra * ra) + y1p * y1p / (rb * rb) ∧
+    x1p * x1p / ((k * ra) * (k * ra)) + y1p * y1p / ((k * rb) * (k * rb)) = 1 :=
+  scaleRadii_scaled ra rb x1p y1p sq hra hrb hsq hlt
+
+/-- `M0 0 A 3 4 0 0 1 10 0` in the ellipse's frame: half chord (5, 0), radii 3, 4: midlenSq = (5·4/3)², sq = 20/3 -/
+example : (20 / 3 : Rat) * (20 / 3) = 5 * (4 / 3) * (5 * (4 / 3)) + 0 * 0 ∧
+    (4 : Rat) * 4 < 5 * (4 / 3) * (5 * (4 / 3)) + 0 * 0 ∧ scaleRadii 3 4 5 0 (20 / 3) = (5, 20 / 3) := by
+  refine ⟨by decide +kernel, by decide +kernel, by decide +kernel⟩
+
+/-- radii that reach the end point are kept -/
+theorem arc_radii_kept (ra rb x1p y1p sq : Rat)
+    (h : ¬ rb * rb < x1p * (rb / ra) * (x1p * (rb / ra)) + y1p * y1p) :
+    scaleRadii ra rb x1p y1p sq = (ra, rb) := by
+  simp [scaleRadii, h]
+
 /-! ## viewBox / preserveAspectRatio -/
 
 /-- the code's `resolveTransforms` is SVG's equivalent transform for every viewBox of positive size -/
